@@ -41,6 +41,8 @@ type c17Case struct {
 	ID  int               `json:"id"`
 	Ops []json.RawMessage `json:"ops"`
 	Raw string            `json:"raw,omitempty"` // when set, posted verbatim instead of Ops
+	DSN string            `json:"dsn,omitempty"` // when set, the request names this (unknown) DSN
+	Non bool              `json:"nonadmin,omitempty"`
 }
 
 type c17Out struct {
@@ -170,7 +172,17 @@ func TestVerifC17(t *testing.T) {
 				}
 			}()
 
-			session := &router.Session{ID: 1000 + c.ID, User: "admin", Admin: true, URLParts: map[string]any{"dsn": name}}
+			use := name
+			if c.DSN != "" {
+				use = c.DSN
+			}
+
+			session := &router.Session{ID: 1000 + c.ID, User: "admin", Admin: true, URLParts: map[string]any{"dsn": use}}
+			if c.Non {
+				session = &router.Session{ID: 1000 + c.ID, User: "nobody", Permissions: []string{"ego.logon"},
+					URLParts: map[string]any{"dsn": use}}
+			}
+
 			req, _ := http.NewRequest(http.MethodPost, "/dsns/"+name+"/@transaction", bytes.NewReader(body))
 			rr := httptest.NewRecorder()
 			o.Ret = Handler(session, rr, req)
@@ -220,7 +232,7 @@ type c17Exit struct {
 type c17Shape struct {
 	Exits             []c17Exit `json:"exits"`
 	BeginFound        bool      `json:"begin_found"`
-	DeferClose        bool      `json:"defer_close"`         // defer db.Close() precedes db.Begin()
+	DeferClose        bool      `json:"defer_close"`          // defer db.Close() precedes db.Begin()
 	CommitClearsOnErr bool      `json:"commit_clears_on_err"` // Database.Commit sets d.Transaction = nil before returning an error of the driver commit
 	RollbackClearsErr bool      `json:"rollback_clears_on_err"`
 	CloseSkipsOpenTx  bool      `json:"close_skips_open_tx"` // Database.Close returns early while d.Transaction != nil
